@@ -208,6 +208,9 @@ func SnapshotLTX(img *oracle.Image, txid ltx.TXID) []byte {
 type FakeLFSC struct {
 	Svc *BackupSvc
 	Log []string
+	// HWMLag makes the service acknowledge durability one upload late: the high-water mark returned for an upload
+	// is the position the service held before it (data is accepted before it is durable), 0 for the first.
+	HWMLag bool
 }
 
 type lfscError struct {
@@ -257,7 +260,11 @@ func (h *FakeLFSC) ServeHTTP(w http.ResponseWriter, r *http.Request) {
 			h.fail(w, 500, "EINTERNAL", err.Error(), ltx.Pos{})
 			return
 		}
-		w.Header().Set("Litefs-Hwm", f.Header.MaxTXID.String())
+		hwm := f.Header.MaxTXID
+		if h.HWMLag {
+			hwm = pos.TXID
+		}
+		w.Header().Set("Litefs-Hwm", hwm.String())
 		w.WriteHeader(200)
 	case r.Method == "GET" && r.URL.Path == "/db/snapshot":
 		c := h.Svc.Chain(db)
